@@ -166,6 +166,9 @@ type c14Sim struct {
 	base   time.Time
 	picker balancer.Picker
 	p      *p2cPicker
+	recs   []*subConn // the picker's records as of Build
+	gid    []int      // id of the SubConn at each position
+	w      *c14World  // nil: the picker is alone in its case
 	n      int
 	pos    map[balancer.SubConn]int
 	conns  []c14Conn
@@ -189,6 +192,7 @@ type c14Sim struct {
 	fail      string // first violation
 	failKnown bool   // it matches the predicate of the (fixed) finding success-ewma-weight
 	classes   map[string]bool
+	idx       int // number of the picker inside its world
 	trackGaps bool
 	noScore   bool // preference / starvation rules: the score rules are judged by the history rule only
 }
@@ -199,12 +203,26 @@ func c14NewSim(n int, pre int64, conns []c14Conn) *c14Sim {
 	if pre > 0 {
 		time.Sleep(time.Duration(pre))
 	}
+	scs := make([]*c14SubConn, n)
+	for i := range scs {
+		scs[i] = &c14SubConn{id: i}
+	}
+	s := c14NewSimOn(new(p2cPickerBuilder), scs, conns)
+	s.base = time.Now()
+	return s
+}
+
+// c14NewSimOn builds a picker for the ready set scs with the given builder (which may
+// have built pickers before). The records the picker holds right after Build are
+// snapshotted: they are what "this picker's connection" means from then on.
+func c14NewSimOn(b *p2cPickerBuilder, scs []*c14SubConn, conns []c14Conn) *c14Sim {
+	n := len(scs)
 	ready := make(map[balancer.SubConn]base.SubConnInfo, n)
-	for i := 0; i < n; i++ {
-		ready[&c14SubConn{id: i}] = base.SubConnInfo{Address: resolver.Address{Addr: fmt.Sprint(i)}}
+	for _, sc := range scs {
+		ready[sc] = base.SubConnInfo{Address: resolver.Address{Addr: fmt.Sprint(sc.id)}}
 	}
 	s := &c14Sim{n: n, conns: conns, classes: map[string]bool{}, pos: map[balancer.SubConn]int{}}
-	s.picker = new(p2cPickerBuilder).Build(base.PickerBuildInfo{ReadySCs: ready})
+	s.picker = b.Build(base.PickerBuildInfo{ReadySCs: ready})
 	s.base = time.Now()
 	p, ok := s.picker.(*p2cPicker)
 	if !ok {
@@ -216,12 +234,15 @@ func c14NewSim(n int, pre int64, conns []c14Conn) *c14Sim {
 		s.fail = fmt.Sprintf("picker holds %d connections, %d are ready", len(p.conns), n)
 		return s
 	}
-	for i, c := range p.conns {
+	s.recs = append([]*subConn(nil), p.conns...)
+	s.gid = make([]int, n)
+	for i, c := range s.recs {
 		if _, in := ready[c.conn]; !in {
 			s.fail = "picker holds a connection that is not ready"
 			return s
 		}
 		s.pos[c.conn] = i
+		s.gid[i] = c.conn.(*c14SubConn).id
 	}
 	if len(s.pos) != n {
 		s.fail = "picker holds a ready connection twice"
@@ -244,7 +265,7 @@ func c14NewSim(n int, pre int64, conns []c14Conn) *c14Sim {
 	return s
 }
 
-func (s *c14Sim) score(i int) uint64 { return atomic.LoadUint64(&s.p.conns[i].success) }
+func (s *c14Sim) score(i int) uint64 { return atomic.LoadUint64(&s.recs[i].success) }
 
 // violation files a broken rule. While the finding success-ewma-weight was open (before
 // /repo 64b0744) score rules broken on a connection that had had an acceptable completion
@@ -265,11 +286,30 @@ func (s *c14Sim) violation(rule string, conn int, format string, args ...any) {
 
 // invariants holds after every operation at a quiescent point.
 func (s *c14Sim) invariants(what string) {
-	for i, c := range s.p.conns {
+	// inflight: per picker (picks made through this picker minus their completions) or,
+	// for an implementation that shares one record per connection between pickers of
+	// the same builder, per connection over all pickers — one of the two for ALL records.
+	local, global := true, s.w != nil
+	for i, c := range s.recs {
 		inf := atomic.LoadInt64(&c.inflight)
-		pk, dn := atomic.LoadInt64(&s.picks[i]), atomic.LoadInt64(&s.dones[i])
-		if inf != pk-dn {
-			s.violation("inflight", i, "%s: inflight=%d, picks=%d completions=%d", what, inf, pk, dn)
+		if inf != atomic.LoadInt64(&s.picks[i])-atomic.LoadInt64(&s.dones[i]) {
+			local = false
+		}
+		if s.w != nil && inf != s.w.picks[s.gid[i]]-s.w.dones[s.gid[i]] {
+			global = false
+		}
+	}
+	for i, c := range s.recs {
+		if !local && !global {
+			inf := atomic.LoadInt64(&c.inflight)
+			pk, dn := atomic.LoadInt64(&s.picks[i]), atomic.LoadInt64(&s.dones[i])
+			if inf != pk-dn {
+				extra := ""
+				if s.w != nil {
+					extra = fmt.Sprintf(" (picker #%d; over all pickers of the builder: picks=%d completions=%d)", s.idx, s.w.picks[s.gid[i]], s.w.dones[s.gid[i]])
+				}
+				s.violation("inflight", i, "%s: inflight=%d, picks=%d completions=%d%s", what, inf, pk, dn, extra)
+			}
 		}
 		if sc := s.score(i); sc > c14ScoreMax {
 			s.violation("score-range", i, "%s: success=%d outside [0,1000]", what, sc)
@@ -282,16 +322,31 @@ func (s *c14Sim) checkLag(i int, what string) {
 	if s.nDone[i] == 0 {
 		return
 	}
-	lag := int64(atomic.LoadUint64(&s.p.conns[i].lag))
+	lag := int64(atomic.LoadUint64(&s.recs[i].lag))
 	// integer truncation of the estimate loses < 1 ns per completion
 	tol := int64(s.nDone[i])
-	if lag < s.minLat[i]-tol || lag > s.maxLat[i] || lag < 0 {
-		s.violation("lag-bounds", i, "%s: lag=%d outside observed latencies [%d,%d] (tolerance %d ns)", what, lag, s.minLat[i], s.maxLat[i], tol)
+	lo, hi := s.minLat[i], s.maxLat[i]
+	if s.w != nil { // an estimate carried over a rebuild may remember what earlier pickers observed
+		g := s.gid[i]
+		lo, hi, tol = s.w.minLat[g], s.w.maxLat[g], s.w.nDone[g]
+	}
+	if lag < lo-tol || lag > hi || lag < 0 {
+		s.violation("lag-bounds", i, "%s: lag=%d outside observed latencies [%d,%d] (tolerance %d ns)", what, lag, lo, hi, tol)
 	}
 }
 
 // observe records a completion that is about to be reported (harness side).
 func (s *c14Sim) observe(i int, lat, now int64, ok bool) {
+	if w := s.w; w != nil {
+		g := s.gid[i]
+		if w.nDone[g] == 0 || lat < w.minLat[g] {
+			w.minLat[g] = lat
+		}
+		if w.nDone[g] == 0 || lat > w.maxLat[g] {
+			w.maxLat[g] = lat
+		}
+		w.nDone[g]++
+	}
 	if s.nDone[i] == 0 || lat < s.minLat[i] {
 		s.minLat[i] = lat
 	}
@@ -350,6 +405,9 @@ func (s *c14Sim) pick(j int, okSel bool, sel int) int {
 		return -1
 	}
 	atomic.AddInt64(&s.picks[i], 1)
+	if s.w != nil {
+		s.w.picks[s.gid[i]]++
+	}
 	if s.trackGaps {
 		if g := now - s.lastPick[i]; g > s.maxGap[i] {
 			s.maxGap[i] = g
@@ -374,6 +432,9 @@ func (s *c14Sim) complete(ev c14Pend) {
 	s.observe(i, now-ev.start, now, ok)
 	ev.done(balancer.DoneInfo{Err: c14Err(ok, ev.sel)})
 	atomic.AddInt64(&s.dones[i], 1)
+	if s.w != nil {
+		s.w.dones[s.gid[i]]++
+	}
 	s.lastDone[i] = now
 	after := s.score(i)
 	what := fmt.Sprintf("completion #%d (acceptable=%v, latency %dns, %dns after the previous one)", s.nDone[i], ok, now-ev.start, td)
@@ -565,7 +626,7 @@ func c14History(t *testing.T, c c14Case) (v kit.Verdict) {
 		}
 		s.drain()
 		s.invariants("after the last completion")
-		for i, cn := range s.p.conns {
+		for i, cn := range s.recs {
 			if inf := atomic.LoadInt64(&cn.inflight); inf != 0 && s.fail == "" {
 				s.violation("inflight", i, "every call completed but inflight=%d", inf)
 			}
@@ -1118,7 +1179,7 @@ func c14FastFail(t *testing.T, c c14FastCase) (v kit.Verdict) {
 			}
 		}
 		s.invariants("after the last completion")
-		for i, cn := range s.p.conns {
+		for i, cn := range s.recs {
 			if inf := atomic.LoadInt64(&cn.inflight); inf != 0 && s.fail == "" {
 				s.violation("inflight", i, "every call completed but inflight=%d", inf)
 			}
@@ -1157,4 +1218,301 @@ func c14FastGen(rt *rapid.T) c14FastCase {
 func TestVerif_C14_fastfail(t *testing.T) {
 	kit.Run(t, "C14", "fastfail", kit.Opts{Quick: 40, Thorough: 1600}, c14FastGen,
 		func(c c14FastCase) kit.Verdict { return c14FastFail(t, c) })
+}
+
+// ---------------------------------------------------------------------------
+// rule 6: rebuild — several pickers built by ONE builder, alive at the same time
+//
+// gRPC's base balancer keeps one picker builder per balancer and calls Build again
+// whenever the set of ready connections changes; calls picked through the previous
+// picker complete later, picks racing with the update may still go through it, and two
+// rpc clients of one process own two balancers. Every picker ever built stays under
+// judgement: a pick returns a member of THAT picker's ready set; its records obey the
+// inflight / score / lag rules (see invariants for the two admissible readings of
+// "the connection's in-flight count" when records could be shared); when every call has
+// completed every record of every picker has inflight 0.
+
+type c14World struct {
+	picks, dones   []int64 // per SubConn id, over all pickers
+	minLat, maxLat []int64
+	nDone          []int64
+	sims           []*c14Sim
+	base           time.Time
+}
+
+type c14RbOp struct {
+	K   string `json:"k"`             // build pick adv burst
+	Set []int  `json:"set,omitempty"` // build: ids of the ready SubConns (empty: nothing ready)
+	P   int    `json:"p,omitempty"`   // pick/burst: which of the three newest pickers (0 = newest)
+	J   int    `json:"j,omitempty"`
+	C   int    `json:"c,omitempty"`
+	B   bool   `json:"b,omitempty"`
+	D   int64  `json:"d,omitempty"`
+	M   int    `json:"n,omitempty"`
+}
+
+type c14RbCase struct {
+	Pool  int       `json:"pool"` // SubConns 0..Pool-1 exist
+	Pre   int64     `json:"pre"`
+	Conns []c14Conn `json:"conns"` // behaviour by position inside a picker
+	Ops   []c14RbOp `json:"ops"`   // Ops[0] is a build
+}
+
+func (w *c14World) failed() bool {
+	for _, s := range w.sims {
+		if s.fail != "" {
+			return true
+		}
+	}
+	return false
+}
+
+// advance moves virtual time forward by d, reporting due completions of every picker.
+func (w *c14World) advance(d int64) {
+	now := func() int64 { return int64(time.Since(w.base)) }
+	target := now() + d
+	for !w.failed() {
+		var next *c14Sim
+		for _, s := range w.sims {
+			if len(s.pend) > 0 && s.pend[0].due <= target && (next == nil || s.pend[0].due < next.pend[0].due) {
+				next = s
+			}
+		}
+		if next == nil {
+			break
+		}
+		if wt := next.pend[0].due - now(); wt > 0 {
+			time.Sleep(time.Duration(wt))
+		}
+		next.complete(heap.Pop(&next.pend).(c14Pend))
+	}
+	if wt := target - now(); wt > 0 {
+		time.Sleep(time.Duration(wt))
+	}
+}
+
+func c14Rebuild(t *testing.T, c c14RbCase) (v kit.Verdict) {
+	classes := map[string]bool{}
+	var w *c14World
+	res := kit.Bubble(t, func() {
+		if c.Pre > 0 {
+			time.Sleep(time.Duration(c.Pre))
+		}
+		mk := func() []int64 { return make([]int64, c.Pool) }
+		w = &c14World{picks: mk(), dones: mk(), minLat: mk(), maxLat: mk(), nDone: mk(), base: time.Now()}
+		pool := make([]*c14SubConn, c.Pool)
+		for i := range pool {
+			pool[i] = &c14SubConn{id: i}
+		}
+		builder := new(p2cPickerBuilder)
+		var prevSet []int
+		check := func(what string) {
+			for _, s := range w.sims {
+				s.invariants(fmt.Sprintf("picker #%d, %s", s.idx, what))
+			}
+		}
+		for k, o := range c.Ops {
+			if w.failed() {
+				return
+			}
+			what := fmt.Sprintf("after op %d %+v", k, o)
+			switch o.K {
+			case "build":
+				if len(o.Set) == 0 {
+					builder.Build(base.PickerBuildInfo{ReadySCs: map[balancer.SubConn]base.SubConnInfo{}})
+					classes["build-empty"] = true
+					prevSet = nil
+					break
+				}
+				scs := make([]*c14SubConn, len(o.Set))
+				for i, id := range o.Set {
+					scs[i] = pool[id]
+				}
+				outstanding := 0
+				for _, s := range w.sims {
+					outstanding += len(s.pend)
+				}
+				s := c14NewSimOn(builder, scs, c.Conns)
+				s.base, s.w, s.idx = w.base, w, len(w.sims)
+				w.sims = append(w.sims, s)
+				if len(w.sims) > 1 {
+					common := 0
+					for _, a := range o.Set {
+						for _, b := range prevSet {
+							if a == b {
+								common++
+							}
+						}
+					}
+					switch {
+					case prevSet == nil:
+						classes["rebuild-after-empty"] = true
+					case common == 0:
+						classes["rebuild-disjoint"] = true
+					case common == len(o.Set) && common == len(prevSet):
+						classes["rebuild-same"] = true
+					case common == len(o.Set):
+						classes["rebuild-subset"] = true
+					case common == len(prevSet):
+						classes["rebuild-superset"] = true
+					default:
+						classes["rebuild-overlap"] = true
+					}
+					if outstanding > 0 {
+						classes["rebuild-with-calls-outstanding"] = true
+						if common > 0 {
+							v.NonTrivial = true
+						}
+					}
+				}
+				prevSet = o.Set
+			case "pick", "burst":
+				if len(w.sims) == 0 {
+					break
+				}
+				alive := len(w.sims)
+				if alive > 3 {
+					alive = 3
+				}
+				s := w.sims[len(w.sims)-1-o.P%alive]
+				if o.P%alive != 0 {
+					classes["pick-through-older-picker"] = true
+				}
+				m := 1
+				if o.K == "burst" {
+					m = o.M
+				}
+				for i := 0; i < m && !w.failed(); i++ {
+					s.pick(o.J, (i+o.C)%3 != 0 == o.B, o.C+i)
+					w.advance(o.D)
+				}
+			case "adv":
+				w.advance(o.D)
+			}
+			check(what)
+		}
+		for !w.failed() {
+			more := false
+			for _, s := range w.sims {
+				more = more || len(s.pend) > 0
+			}
+			if !more {
+				break
+			}
+			w.advance(10 * 60 * c14Sec)
+		}
+		check("after the last completion")
+		for _, s := range w.sims {
+			for i, cn := range s.recs {
+				if inf := atomic.LoadInt64(&cn.inflight); inf != 0 && s.fail == "" {
+					s.violation("inflight", i, "picker #%d: every call of every picker completed but inflight=%d", s.idx, inf)
+				}
+			}
+		}
+		if len(w.sims) >= 2 {
+			classes["pickers>=2"] = true
+		}
+	})
+	if w == nil {
+		return kit.Verdict{Fail: "bubble: " + res.String()}
+	}
+	for _, s := range w.sims {
+		for k := range s.classes {
+			classes[k] = true
+		}
+		if s.fail != "" && v.Fail == "" {
+			v.Fail = fmt.Sprintf("picker #%d (ready set %v): %s", s.idx, s.gid, s.fail)
+		}
+	}
+	for k := range classes {
+		v.Classes = append(v.Classes, k)
+	}
+	sort.Strings(v.Classes)
+	if v.Fail == "" && !res.OK() {
+		v.Fail = "bubble: " + res.String()
+	}
+	return v
+}
+
+func c14RbGen(rt *rapid.T) c14RbCase {
+	c := c14RbCase{
+		Pool: rapid.IntRange(2, 8).Draw(rt, "pool"),
+		Pre:  rapid.Int64Range(0, c14Sec).Draw(rt, "pre"),
+	}
+	c.Conns = c14GenConns(rt, c.Pool)
+	ids := make([]int, c.Pool)
+	for i := range ids {
+		ids[i] = i
+	}
+	var prev []int
+	build := func() c14RbOp {
+		rel := rapid.SampledFrom([]string{"same", "subset", "superset", "disjoint", "any", "any", "empty"}).Draw(rt, "rel")
+		if len(prev) == 0 && rel != "empty" {
+			rel = "any"
+		}
+		perm := rapid.Permutation(ids).Draw(rt, "perm")
+		var set []int
+		in := func(x int, a []int) bool {
+			for _, y := range a {
+				if x == y {
+					return true
+				}
+			}
+			return false
+		}
+		switch rel {
+		case "same":
+			set = append(set, prev...)
+		case "subset":
+			set = append(set, prev[:rapid.IntRange(1, len(prev)).Draw(rt, "k")]...)
+		case "superset":
+			set = append(set, prev...)
+			for _, x := range perm {
+				if !in(x, prev) && rapid.Bool().Draw(rt, "add") {
+					set = append(set, x)
+				}
+			}
+		case "disjoint":
+			for _, x := range perm {
+				if !in(x, prev) {
+					set = append(set, x)
+				}
+			}
+			if len(set) == 0 {
+				set = perm[:1]
+			}
+		case "any":
+			set = perm[:rapid.IntRange(1, c.Pool).Draw(rt, "k")]
+		}
+		prev = set
+		return c14RbOp{K: "build", Set: append([]int(nil), set...)}
+	}
+	c.Ops = append(c.Ops, build())
+	n := rapid.IntRange(2, 80).Draw(rt, "nops")
+	for i := 0; i < n; i++ {
+		k := rapid.SampledFrom([]string{"pick", "pick", "pick", "pick", "adv", "adv", "burst", "build", "build"}).Draw(rt, "k")
+		o := c14RbOp{K: k}
+		switch k {
+		case "build":
+			o = build()
+		case "pick", "burst":
+			o.P = rapid.SampledFrom([]int{0, 0, 0, 1, 2}).Draw(rt, "p")
+			o.J = rapid.IntRange(0, 32).Draw(rt, "j")
+			o.C = rapid.IntRange(0, 15).Draw(rt, "c")
+			o.B = rapid.Bool().Draw(rt, "b")
+			if k == "burst" {
+				o.D = rapid.SampledFrom(c14Gaps).Draw(rt, "gap")
+				o.M = rapid.IntRange(2, 12).Draw(rt, "m")
+			}
+		case "adv":
+			o.D = rapid.SampledFrom(c14Units).Draw(rt, "unit") * int64(rapid.IntRange(1, 9).Draw(rt, "mul"))
+		}
+		c.Ops = append(c.Ops, o)
+	}
+	return c
+}
+
+func TestVerif_C14_rebuild(t *testing.T) {
+	kit.Run(t, "C14", "rebuild", kit.Opts{Quick: 1500, Thorough: 48000}, c14RbGen,
+		func(c c14RbCase) kit.Verdict { return c14Rebuild(t, c) })
 }
